@@ -199,7 +199,8 @@ def main(argv=None):
         for e in known:
             if e.get('status', 'known') != 'known':
                 continue
-            if e.get('kind') == kind and (e.get('key') == key or (e.get('key_prefix') and key.startswith(e['key_prefix']))):
+            if e.get('kind') == kind and (e.get('key') == key or (e.get('key_prefix') and key.startswith(e['key_prefix']))
+                                          or (e.get('key_contains') and all(part in key for part in e['key_contains']))):
                 return e
         return None
 
@@ -218,7 +219,9 @@ def main(argv=None):
             known_refuted += 1
             if e not in known_matched:
                 known_matched.append(e)
-                lines.append(f"KNOWN-FINDING: property={prop} {e['what']}")
+                ln = f"KNOWN-FINDING: property={prop} {e['what']}"
+                if ln not in lines:
+                    lines.append(ln)
             continue
         violations += 1
         groups.setdefault(o['name'], []).append(o)
